@@ -68,6 +68,7 @@ PREFIX = [
     ["group_by", [g]],
     ["alias", None, True],
     ["filter", [["is_not_null", g]]],
+    ["union", {"src": "U"}, True],  # the table is itself a distinct union (then e.g. union-swap with distinct=False)
 ]
 
 E = {
